@@ -89,7 +89,7 @@ static _Bool pred1(int p, int x) { return p == 0 ? (x & 3) == 0 : (p == 1 ? x < 
 
 /* ---- partition family [alg.partitions] ------------------------------------------------------------------------------------- */
 #define B_PARTITION(L, CALL, CLO, CHI) { LEN(n, L); SEL(p, CLO, CHI); VF_INPUT(int, g); IN(int, a, L); WIN(p == 2, a_in, L, ); \
-  SPLIT(p, 3) SPLIT(n, L) { MK(int, a, n, L); int cnt = 0, gb = 0, ga = 0; \
+  SPLITR(p, CLO, CHI) SPLIT(n, L) { MK(int, a, n, L); int cnt = 0, gb = 0, ga = 0; \
     FORK(k, L, n) { cnt += pred1(p, a_in[k]); gb += a_in[k] == g; } \
     int *r = CALL(a, a + n, p); \
     VF_ASSERT(r == a + cnt, "partition returns first + #{elements satisfying pred}"); \
@@ -117,7 +117,7 @@ static _Bool pred1(int p, int x) { return p == 0 ? (x & 3) == 0 : (p == 1 ? x < 
 /* ---- sorting [alg.sort]: sorted + permutation (count of a ghost value g unchanged: sound for all values) -------------------- */
 #define PERM_G(L, n) { int gb = 0, ga = 0; FORK(k, L, n) { gb += a_in[k] == g; ga += a[k] == g; } VF_ASSERT(ga == gb, "permutation: every value occurs as often as before"); }
 #define B_SORT(L, CALL, CLO, CHI, NMIN) { LEN(n, L); VF_ASSUME(n >= (NMIN)); SEL(c, CLO, CHI); VF_INPUT(int, g); IN(int, a, L); WIN(c == 3, a_in, L, ); \
-  SPLIT(c, 3) SPLIT(n, L) { MK(int, a, n, L); \
+  SPLITR(c, CLO, CHI) SPLIT(n, L) { MK(int, a, n, L); \
     CALL(a, a + n, c); \
     PERM_G(L, n) \
     FORK(k, (L) - 1, n - 1) VF_ASSERT(!lt(c, a[k + 1], a[k]), "sort: the result is sorted with respect to comp"); } \
@@ -131,20 +131,20 @@ static _Bool pred1(int p, int x) { return p == 0 ? (x & 3) == 0 : (p == 1 ? x < 
 /* partial_sort: [first,middle) sorted and no element of [middle,last) less than any of them; nth_element: nothing in [nth,last) is
  * less than anything in [first,nth], i.e. a[nth] is the element a full sort would put there */
 #define B_PARTIAL_SORT(L, CLO, CHI) { LEN(n, L); SEL(c, CLO, CHI); VF_INPUT(unsigned char, m); VF_ASSUME(m <= n); VF_INPUT(int, g); IN(int, a, L); WIN(c == 3, a_in, L, ); \
-  SPLIT(c, 3) SPLIT(n, L) { MK(int, a, n, L); \
+  SPLITR(c, CLO, CHI) SPLIT(n, L) { MK(int, a, n, L); \
     a_partial_sort(a, a + m, a + n, c); \
     PERM_G(L, n) \
     FORK(k, (L) - 1, m - 1) VF_ASSERT(!lt(c, a[k + 1], a[k]), "partial_sort: [first, middle) is sorted"); \
     FORK(i, L, m) FORK(j, L, n) if (j >= m) VF_ASSERT(!lt(c, a[j], a[i]), "partial_sort: no element of [middle, last) is less than an element of [first, middle)"); } \
   VF_REACH(); }
 #define B_NTH_ELEMENT(L, CLO, CHI) { LEN(n, L); SEL(c, CLO, CHI); VF_INPUT(unsigned char, m); VF_ASSUME(m <= n); VF_INPUT(int, g); IN(int, a, L); WIN(c == 3, a_in, L, ); \
-  SPLIT(c, 3) SPLIT(n, L) { MK(int, a, n, L); \
+  SPLITR(c, CLO, CHI) SPLIT(n, L) { MK(int, a, n, L); \
     a_nth_element(a, a + m, a + n, c); \
     PERM_G(L, n) \
     FORK(i, L, n) FORK(j, L, n) if (i <= m && j >= m && i < j) VF_ASSERT(!lt(c, a[j], a[i]), "nth_element: for i in [first, nth], j in [nth, last): !(a[j] < a[i])"); } \
   VF_REACH(); }
 #define B_STABLE_SORT(L, CALL, CLO, CHI) { LEN(n, L); SEL(c, CLO, CHI); KTIN(a, L, 0); WIN(c == 3, a_in, L, .key); \
-  SPLIT(c, 3) SPLIT(n, L) { MK(KT, a, n, L); \
+  SPLITR(c, CLO, CHI) SPLIT(n, L) { MK(KT, a, n, L); \
     CALL(a, a + n, c); \
     FORK(k, L, n) VF_ASSERT(a[k].tag >= 0 && a[k].tag < n && a[k].key == a_in[a[k].tag].key, "stable sort: every output element is an input element"); \
     FORK(j, L, n) FORK(k, L, n) if (j < k) VF_ASSERT(a[j].tag != a[k].tag, "stable sort: no input element is duplicated (permutation)"); \
@@ -153,7 +153,7 @@ static _Bool pred1(int p, int x) { return p == 0 ? (x & 3) == 0 : (p == 1 ? x < 
   VF_REACH(); }
 
 #define B_STABLE_SORT_T(L, CALL, CLO, CHI) { LEN(n, L); SEL(c, CLO, CHI); TIN(a, L, 0); WIN(c == 3, a_in, L, >> 4); \
-  SPLIT(c, 3) SPLIT(n, L) { MK(int, a, n, L); \
+  SPLITR(c, CLO, CHI) SPLIT(n, L) { MK(int, a, n, L); \
     CALL(a, a + n, c); \
     FORK(k, L, n) VF_ASSERT(TAG(a[k]) < n && a[k] == a_in[TAG(a[k])], "stable sort: every output element is an input element"); \
     FORK(j, L, n) FORK(k, L, n) if (j < k) VF_ASSERT(TAG(a[j]) != TAG(a[k]), "stable sort: no input element is duplicated (permutation)"); \
@@ -178,35 +178,39 @@ static _Bool pred1(int p, int x) { return p == 0 ? (x & 3) == 0 : (p == 1 ? x < 
 /* ---- search family [alg.search] [alg.find.end] [alg.find.first.of]: first / last position such that ... ---------------------- */
 #define MATCH_AT(ok, i, L, m, p) _Bool ok = (i) + (m) <= n; FORK(j, L, m) if (ok && !peq(p, a_in[(i) + j], b_in[j])) ok = 0;
 #define B_SEARCH(L, CALL, CLO, CHI) { LEN(n, L); LEN(m, L); SEL(p, CLO, CHI); IN(int, a, L); IN(int, b, L); WIN(p == 2, a_in, L, ); WIN(p == 2, b_in, L, ); \
-  SPLIT(p, 3) SPLIT(n, L) SPLIT(m, L) { MK(int, a, n, L); MK(int, b, m, L); int idx = n; \
+  SPLITR(p, CLO, CHI) SPLIT(n, L) SPLIT(m, L) { MK(int, a, n, L); MK(int, b, m, L); int idx = n; \
     for (int i = (L); i >= 0; --i) { MATCH_AT(ok, i, L, m, p) if (ok) idx = i; } \
     int *r = CALL(a, a + n, b, b + m, p); \
     VF_ASSERT(r == a + idx, "search returns the first position where the needle matches (first for an empty needle), else last"); } \
   VF_REACH(); }
-#define B_FIND_END(L, CLO, CHI) { LEN(n, L); LEN(m, L); SEL(p, CLO, CHI); IN(int, a, L); IN(int, b, L); WIN(p == 2, a_in, L, ); WIN(p == 2, b_in, L, ); \
-  SPLIT(p, 3) { EMK(int, a, n, L); EMK(int, b, m, L); int idx = n; \
+#define B_FIND_END(L, CLO, CHI) B_FIND_END_C(L, a_find_end, CLO, CHI)
+#define B_FIND_END_C(L, CALL, CLO, CHI) { LEN(n, L); LEN(m, L); SEL(p, CLO, CHI); IN(int, a, L); IN(int, b, L); WIN(p == 2, a_in, L, ); WIN(p == 2, b_in, L, ); \
+  SPLITR(p, CLO, CHI) { EMK(int, a, n, L); EMK(int, b, m, L); int idx = n; \
     for (int i = 0; i <= (L); ++i) { MATCH_AT(ok, i, L, m, p) if (ok && m > 0) idx = i; } \
-    int *r = a_find_end(a, a + n, b, b + m, p); \
+    int *r = CALL(a, a + n, b, b + m, p); \
     VF_ASSERT(r == a + idx, "find_end returns the last position where the needle matches, last if none or the needle is empty"); } \
   VF_REACH(); }
-#define B_SEARCH_N(L, CLO, CHI, KNOWN) { LEN(n, L); VF_INPUT(signed char, s); VF_ASSUME(s >= -1 && s <= n + 1); SEL(p, CLO, CHI); VF_INPUT(int, v); IN(int, a, L); WIN(p == 2, a_in, L, ); if (p == 2) VF_ASSUME(v >= -4 && v <= 4); \
-  SPLIT(p, 3) SPLIT(n, L) { MK(int, a, n, L); int idx = n, fm = n; \
+#define B_SEARCH_N(L, CLO, CHI, KNOWN) B_SEARCH_N_C(L, a_search_n, CLO, CHI, KNOWN)
+#define B_SEARCH_N_C(L, CALL, CLO, CHI, KNOWN) { LEN(n, L); VF_INPUT(signed char, s); VF_ASSUME(s >= -1 && s <= n + 1); SEL(p, CLO, CHI); VF_INPUT(int, v); IN(int, a, L); WIN(p == 2, a_in, L, ); if (p == 2) VF_ASSUME(v >= -4 && v <= 4); \
+  SPLITR(p, CLO, CHI) SPLIT(n, L) { MK(int, a, n, L); int idx = n, fm = n; \
     for (int i = (L); i >= 0; --i) { _Bool ok = i + (int)s <= n; FORK(j, (L) + 1, s) if (ok && !peq(p, a_in[i + j], v)) ok = 0; if (ok) idx = i; if (i < n && peq(p, a_in[i], v)) fm = i; } \
     KNOWN; \
-    int *r = a_search_n(a, a + n, s, &v, p); \
+    int *r = CALL(a, a + n, s, &v, p); \
     VF_ASSERT(r == a + idx, "search_n returns the first position of count consecutive matching elements (first for count <= 0), else last"); } \
   VF_REACH(); }
-#define B_FIND_FIRST_OF(L, CLO, CHI) { LEN(n, L); LEN(m, L); SEL(p, CLO, CHI); IN(int, a, L); IN(int, b, L); WIN(p == 2, a_in, L, ); WIN(p == 2, b_in, L, ); \
-  SPLIT(p, 3) SPLIT(n, L) SPLIT(m, L) { MK(int, a, n, L); MK(int, b, m, L); int idx = n; \
+#define B_FIND_FIRST_OF(L, CLO, CHI) B_FIND_FIRST_OF_C(L, a_find_first_of, CLO, CHI)
+#define B_FIND_FIRST_OF_C(L, CALL, CLO, CHI) { LEN(n, L); LEN(m, L); SEL(p, CLO, CHI); IN(int, a, L); IN(int, b, L); WIN(p == 2, a_in, L, ); WIN(p == 2, b_in, L, ); \
+  SPLITR(p, CLO, CHI) SPLIT(n, L) SPLIT(m, L) { MK(int, a, n, L); MK(int, b, m, L); int idx = n; \
     for (int i = (L) - 1; i >= 0; --i) if (i < n) { _Bool any = 0; FORK(j, L, m) if (peq(p, a_in[i], b_in[j])) any = 1; if (any) idx = i; } \
-    int *r = a_find_first_of(a, a + n, b, b + m, p); \
+    int *r = CALL(a, a + n, b, b + m, p); \
     VF_ASSERT(r == a + idx, "find_first_of returns the first element that matches any element of the second range, else last"); } \
   VF_REACH(); }
 /* includes [includes]: true iff the second sorted range is a sub-multiset of the first: plain two-finger reference */
-#define B_INCLUDES(L, CLO, CHI) { LEN(n, L); LEN(m, L); SEL(c, CLO, CHI); IN(int, a, L); IN(int, b, L); WIN(c == 3, a_in, L, ); WIN(c == 3, b_in, L, ); \
-  SPLIT(c, 3) { EMK(int, a, n, L); EMK(int, b, m, L); ASSUME_SORTED(c, a_in, n, L, ); ASSUME_SORTED(c, b_in, m, L, ); _Bool ok = 1; int i = 0, j = 0; \
+#define B_INCLUDES(L, CLO, CHI) B_INCLUDES_C(L, a_includes, CLO, CHI)
+#define B_INCLUDES_C(L, CALL, CLO, CHI) { LEN(n, L); LEN(m, L); SEL(c, CLO, CHI); IN(int, a, L); IN(int, b, L); WIN(c == 3, a_in, L, ); WIN(c == 3, b_in, L, ); \
+  SPLITR(c, CLO, CHI) { EMK(int, a, n, L); EMK(int, b, m, L); ASSUME_SORTED(c, a_in, n, L, ); ASSUME_SORTED(c, b_in, m, L, ); _Bool ok = 1; int i = 0, j = 0; \
     for (int s = 0; s < 2 * (L); ++s) if (ok && j < m) { if (i >= n || lt(c, b_in[j], a_in[i])) ok = 0; else { if (!lt(c, a_in[i], b_in[j])) ++j; ++i; } } \
-    _Bool r = a_includes(a, a + n, b, b + m, c); \
+    _Bool r = CALL(a, a + n, b, b + m, c); \
     VF_ASSERT(r == ok, "includes: true iff the second sorted range is a sub-multiset of the first (true for an empty second range)"); \
     TAIL(a, n, L, IEQ); TAIL(b, m, L, IEQ); } \
   VF_REACH(); }
@@ -214,7 +218,7 @@ static _Bool pred1(int p, int x) { return p == 0 ? (x & 3) == 0 : (p == 1 ? x < 
 /* ---- merge / inplace_merge [alg.merge]: the final position of every element in closed form (sorted, stable, range 1 first) ---- */
 #define TSORTED(c, a, n, L) FORK(vf_s, (L) - 1, (int)(n) - 1) VF_ASSUME(!ltk(c, a[vf_s + 1], a[vf_s]))
 #define B_MERGE(L, CALL, CLO, CHI) { LEN(na, L); LEN(nb, L); SEL(c, CLO, CHI); TIN(a, L, 0); TIN(b, L, 8); WIN(c == 3, a_in, L, >> 4); WIN(c == 3, b_in, L, >> 4); \
-  SPLIT(c, 4) { EMK(int, a, na, L); EMK(int, b, nb, L); TSORTED(c, a_in, na, L); TSORTED(c, b_in, nb, L); EOUT(int, d, 2 * (L)); \
+  SPLITR(c, CLO, CHI) { EMK(int, a, na, L); EMK(int, b, nb, L); TSORTED(c, a_in, na, L); TSORTED(c, b_in, nb, L); EOUT(int, d, 2 * (L)); \
     int *r = CALL; \
     VF_ASSERT(r == d + (na + nb), "merge returns result + (last1 - first1) + (last2 - first2)"); \
     FORK(i, L, na) { int pos = i; FORK(j, L, nb) pos += ltk(c, b_in[j], a_in[i]); VF_ASSERT(d[pos] == a_in[i], "merge: a[i] lands behind exactly the elements of range 2 that are less than it"); VF_ASSERT(a[i] == a_in[i], "merge leaves range 1 unchanged"); } \
@@ -222,7 +226,7 @@ static _Bool pred1(int p, int x) { return p == 0 ? (x & 3) == 0 : (p == 1 ? x < 
     TAIL(d, na + nb, 2 * (L), IEQ); TAIL(a, na, L, IEQ); TAIL(b, nb, L, IEQ); } \
   VF_REACH(); }
 #define B_INPLACE_MERGE(L, CALL, CLO, CHI) { LEN(n, L); VF_INPUT(unsigned char, m); VF_ASSUME(m <= n); SEL(c, CLO, CHI); TIN(a, L, 0); WIN(c == 3, a_in, L, >> 4); \
-  SPLIT(c, 4) { EMK(int, a, n, L); \
+  SPLITR(c, CLO, CHI) { EMK(int, a, n, L); \
     FORK(k, (L) - 1, n - 1) if (k + 1 != m) VF_ASSUME(!ltk(c, a_in[k + 1], a_in[k])); \
     CALL; \
     FORK(i, L, m) { int pos = i; FORK(j, L, n) if (j >= m) pos += ltk(c, a_in[j], a_in[i]); VF_ASSERT(a[pos] == a_in[i], "inplace_merge: an element of the first half lands behind exactly the second-half elements less than it"); } \
@@ -246,7 +250,7 @@ static int ref_setop(int op, int c, const int *a, int na, const int *b, int nb, 
     return w;
 }
 #define B_SETOP(L, OP, CALL, WHAT, CLO, CHI) { LEN(na, L); LEN(nb, L); SEL(c, CLO, CHI); TIN(a, L, 0); TIN(b, L, 8); WIN(c == 3, a_in, L, >> 4); WIN(c == 3, b_in, L, >> 4); \
-  SPLIT(c, 4) { EMK(int, a, na, L); EMK(int, b, nb, L); TSORTED(c, a_in, na, L); TSORTED(c, b_in, nb, L); \
+  SPLITR(c, CLO, CHI) { EMK(int, a, na, L); EMK(int, b, nb, L); TSORTED(c, a_in, na, L); TSORTED(c, b_in, nb, L); \
     int e[2 * (L) + 1]; int ne = ref_setop(OP, c, a_in, na, b_in, nb, e, 2 * (L)); EOUT(int, d, 2 * (L)); \
     int *r = CALL; \
     VF_ASSERT(r == d + ne, WHAT " returns the end of the constructed range"); \
@@ -555,3 +559,345 @@ void h_iter_ops_wrapped(void) { VF_INPUT_ARR(int, a, 8); POS(i); POS(j); VF_INPU
   if (d <= i && i - d <= 8) { VF_ASSERT(it_prev_bidi(p, d) == p - d, "prev on a bidirectional iterator: n decrements or -n increments"); }
   if (i <= j) { VF_ASSERT(it_distance_fwd(p, q) == j - i && it_distance_bidi(p, q) == j - i, "distance(first, last): number of increments from first to last"); }
   VF_REACH(); }
+
+/* ======================================= second wave: move-sensitive elements, callables returning int =========================
+ * (1) hm_*: the algorithms that move / assign elements inside one range, instantiated with vf::Hm {int v} (driver.cpp): move construction
+ *     and move assignment leave the source at -1 and x = move(x) leaves x at -1.  MoveAssignable says nothing about a self-move and the
+ *     std:: algorithms never perform one, so the postconditions are stated on the VALUES: no input value is -1, and every element the
+ *     standard keeps / permutes must still carry its original value (in the prescribed position).
+ * (2) ip_* (and the predicates / comparators of the hm_* groups): callables returning int whose truthy values are 2, 0x100 and INT_MIN:
+ *     [algorithms.requirements] only requires the result to be contextually convertible to bool; the expected results below are computed
+ *     from `pred(x) != 0`.  Selectors: unary p: 0 x & 2, 1 x & 0x100, 2 x & INT_MIN; binary p: 0 equality, 1 equality of the low two bits
+ *     (peq); comparator c: 0 less, 1 greater, 2 less on the low two bits (lt / ltk), 4 the overload without comparator. */
+/*@COMMON@*/
+typedef struct vf_Hm HM;
+typedef struct vf_Hc HC;
+typedef struct etl_static_vector_vf_Hc_4 HV4;   /* one-byte twin Hc of Hm: see driver.cpp */
+#define HV4SZ(x) ((x).b0._size)
+#define HV4EL(x, i) (((HC *)(x).b0._data)[i].v)
+static _Bool ipredc(int p, int x) { return p == 0 ? (x & 2) != 0 : (p == 1 ? (x & 0x40) != 0 : x < 0); }
+/* Hm input: all values symbolic, none is -1 (the moved-from mark) */
+#define HIN(name, MAX) VF_INPUT_ARR(HM, name##_in, (MAX) + 1); for (int vf_h_##name = 0; vf_h_##name <= (MAX); ++vf_h_##name) VF_ASSUME(name##_in[vf_h_##name].v != -1)
+/* tagged Hm input: key = v >> 4 symbolic (28 bits), tag = v & 15 = TAG0 + index < 15 (element identity; v == -1 is impossible) */
+#define HTIN(name, MAX, TAG0) VF_INPUT_ARR(HM, name##_in, (MAX) + 1); for (int vf_h_##name = 0; vf_h_##name <= (MAX); ++vf_h_##name) name##_in[vf_h_##name].v = (int)(((unsigned)name##_in[vf_h_##name].v & ~15u) | (unsigned)((TAG0) + vf_h_##name))
+#define HEQ(x, y) ((x).v == (y).v)
+static _Bool ipred(int p, int x) { return p == 0 || p == 3 ? (x & 2) != 0 : (p == 1 ? (x & 0x100) != 0 : x < 0); }   /* p == 3: x & 2 again, the driver's callable returns bool */
+/* comparator selector with the value 3 (a % 3) left out: 0..2 and 4 */
+#define SELC(c) VF_INPUT(unsigned char, c); VF_ASSUME(c <= 4 && c != 3)
+/* SPLIT over [LO, HI] only (symbolic execution also walks the branches SEL has excluded) */
+#define SPLITR(n, LO, HI) for (int vf_c_##n = (LO); vf_c_##n <= (HI); ++vf_c_##n) if (vf_c_##n == (int)(n)) for (int vf_once_##n = 1, n = vf_c_##n; vf_once_##n; vf_once_##n = 0)
+
+/* ---- remove / remove_if [alg.remove]: w == 0 remove(value), w - 1 the predicate of remove_if */
+#define B_HM_REMOVE(L) { LEN(n, L); SEL(w, 0, 3); VF_INPUT(HM, val); HIN(a, L); \
+  SPLIT(w, 3) SPLIT(n, L) { MK(HM, a, n, L); int cnt = 0; \
+    HM *r = w == 0 ? hm_remove(a, a + n, &val) : hm_remove_if(a, a + n, w - 1); \
+    FORK(k, L, n) if (!(w == 0 ? a_in[k].v == val.v : ipred(w - 1, a_in[k].v))) { VF_ASSERT(a[cnt].v == a_in[k].v, "remove / remove_if: the elements that are not removed keep their values (nothing is move-assigned onto itself) and their relative order"); ++cnt; } \
+    VF_ASSERT(r == a + cnt, "remove / remove_if returns the end of the range of the elements that are not removed"); } \
+  VF_REACH(); }
+/* ---- unique [alg.unique]: w == 0 operator==, 1 hm_eq, 2 hm_low2_eq */
+#define B_HM_UNIQUE(L) { LEN(n, L); SEL(w, 0, 2); HIN(a, L); \
+  SPLIT(w, 2) SPLIT(n, L) { MK(HM, a, n, L); int cnt = 0; \
+    HM *r = hm_unique(a, a + n, w); \
+    FORK(k, L, n) if (k == 0 || !peq(w == 2, a_in[k - 1].v, a_in[k].v)) { VF_ASSERT(a[cnt].v == a_in[k].v, "unique: the first element of every group of consecutive equivalent elements keeps its value (nothing is move-assigned onto itself), in order"); ++cnt; } \
+    VF_ASSERT(r == a + cnt, "unique returns the end of the resulting range"); } \
+  VF_REACH(); }
+/* ---- rotate / shift [alg.rotate] [alg.shift] */
+#define B_HM_ROTATE(L) { LEN(n, L); VF_INPUT(unsigned char, m); VF_ASSUME(m <= n); HIN(a, L); \
+  SPLIT(n, L) SPLIT(m, L) { MK(HM, a, n, L); \
+    HM *r = hm_rotate(a, a + m, a + n); \
+    VF_ASSERT(r == a + (n - m), "rotate returns first + (last - middle)"); \
+    FORK(k, L, n) VF_ASSERT(a[k].v == a_in[(k + m) % n].v, "rotate: out[k] carries the value of in[(k + m) mod n] (no element is left moved-from)"); } \
+  VF_REACH(); }
+#define B_HM_SHIFT(L) { LEN(n, L); VF_INPUT(signed char, s); VF_ASSUME(s >= 0 && s <= n + 1); VF_INPUT_BOOL(right); HIN(a, L); \
+  SPLIT(right, 1) SPLIT(n, L) { MK(HM, a, n, L); \
+    HM *r = right ? hm_shift_right(a, a + n, (long)s) : hm_shift_left(a, a + n, (long)s); \
+    if (s == 0 || s >= n) { VF_ASSERT(r == (right ? (s == 0 ? a : a + n) : (s == 0 ? a + n : a)), "shift_left / shift_right with n == 0 or n >= last - first: return value"); \
+      FORK(k, L, n) VF_ASSERT(a[k].v == a_in[k].v, "shift_left / shift_right with n == 0 or n >= last - first have no effects"); } \
+    else if (right) { VF_ASSERT(r == a + s, "shift_right returns first + n"); FORK(k, L, n - s) VF_ASSERT(a[k + s].v == a_in[k].v, "shift_right: first+n+i carries the value of first+i"); } \
+    else { VF_ASSERT(r == a + (n - s), "shift_left returns first + (last - first - n)"); FORK(k, L, n - s) VF_ASSERT(a[k].v == a_in[k + s].v, "shift_left: first+i carries the value of first+n+i"); } } \
+  VF_REACH(); }
+/* ---- partition / stable_partition [alg.partitions] */
+#define B_HM_PARTITION(L) { LEN(n, L); SEL(p, 0, 2); VF_INPUT(int, g); HIN(a, L); \
+  SPLIT(p, 2) SPLIT(n, L) { MK(HM, a, n, L); int cnt = 0, gb = 0, ga = 0; \
+    FORK(k, L, n) { cnt += ipred(p, a_in[k].v); gb += a_in[k].v == g; } \
+    HM *r = hm_partition(a, a + n, p); \
+    VF_ASSERT(r == a + cnt, "partition returns first + #{elements with pred(x) != 0}"); \
+    FORK(k, L, n) { ga += a[k].v == g; VF_ASSERT(a[k].v != -1, "partition leaves no element moved-from"); VF_ASSERT(ipred(p, a[k].v) == (k < cnt), "partition: pred(x) != 0 exactly on [first, ret)"); } \
+    VF_ASSERT(ga == gb, "partition permutes: every value occurs as often as before"); } \
+  VF_REACH(); }
+#define B_HM_STABLE_PARTITION(L, PLO, KNOWN) { LEN(n, L); SEL(p, PLO, 3); HIN(a, L); \
+  SPLITR(p, PLO, 3) SPLIT(n, L) { MK(HM, a, n, L); int e[(L) + 1]; int cnt = 0, w = 0; \
+    FORK(k, L, n) if (ipred(p, a_in[k].v)) { e[w] = a_in[k].v; ++w; } cnt = w; \
+    FORK(k, L, n) if (!ipred(p, a_in[k].v)) { e[w] = a_in[k].v; ++w; } \
+    KNOWN; \
+    HM *r = hm_stable_partition(a, a + n, p); \
+    VF_ASSERT(r == a + cnt, "stable_partition returns first + #{elements with pred(x) != 0}"); \
+    FORK(k, L, n) VF_ASSERT(a[k].v == e[k], "stable_partition: the satisfying values in their original order, then the others in their original order (none moved-from)"); } \
+  VF_REACH(); }
+/* ---- reverse, swap_ranges, iter_swap [alg.reverse] [alg.swap] */
+#define B_HM_SWAPS(L) { LEN(n, L); HIN(a, L); HIN(b, L); VF_INPUT(unsigned char, i); VF_INPUT(unsigned char, j); VF_ASSUME(i < 4 && j < 4); \
+  SPLIT(n, L) { MK(HM, a, n, L); MK(HM, b, n, L); HM q[4]; for (int k = 0; k < 4; ++k) q[k] = a_in[k]; \
+    hm_reverse(a, a + n); \
+    FORK(k, L, n) VF_ASSERT(a[k].v == a_in[n - 1 - k].v, "reverse: out[k] carries the value of in[n - 1 - k]"); \
+    HM *r = hm_swap_ranges(a, a + n, b); \
+    VF_ASSERT(r == b + n, "swap_ranges returns first2 + (last1 - first1)"); \
+    FORK(k, L, n) VF_ASSERT(a[k].v == b_in[k].v && b[k].v == a_in[n - 1 - k].v, "swap_ranges exchanges the values of the two ranges element-wise"); \
+    hm_iter_swap(q + i, q + j); \
+    for (int k = 0; k < 4; ++k) VF_ASSERT(q[k].v == a_in[k == i ? j : (k == j ? i : k)].v, "iter_swap(a, b) exchanges *a and *b (iter_swap(a, a) keeps the value) and touches nothing else"); } \
+  VF_REACH(); }
+/* ---- move / move_backward / copy_backward on OVERLAPPING ranges of one buffer [alg.move] [alg.copy]: w == 0 move([s, n) -> [0, n - s)),
+ * 1 move_backward([0, n - s) -> [s, n)), 2 copy_backward likewise; 1 <= s <= n.  The standard performs exactly one move assignment per
+ * element, so a source element that is not overwritten afterwards is moved-from (-1); with copy_backward it keeps its value. */
+#define B_HM_MOVE(L) { LEN(n, L); LEN(s, L); VF_ASSUME(s >= 1 && s <= n); SEL(w, 0, 2); HIN(a, L); \
+  SPLIT(w, 2) SPLIT(n, L) SPLIT(s, L) { MK(HM, a, n, L); int m = n - s; \
+    if (w == 0) { HM *r = hm_move(a + s, a + n, a); VF_ASSERT(r == a + m, "move returns result + (last - first)"); \
+      FORK(k, L, n) VF_ASSERT(a[k].v == (k < m ? a_in[k + s].v : (k >= s ? -1 : a_in[k].v)), "move: result+i carries the value of first+i; a source element that is not overwritten is moved-from exactly once; nothing else changes"); } \
+    else { HM *r = w == 1 ? hm_move_backward(a, a + m, a + n) : hm_copy_backward(a, a + m, a + n); VF_ASSERT(r == a + s, "move_backward / copy_backward return result - (last - first)"); \
+      FORK(k, L, n) VF_ASSERT(a[k].v == (k >= s ? a_in[k - s].v : (k < m && w == 1 ? -1 : a_in[k].v)), "move_backward / copy_backward: result-i carries the value of last-i; a source element that is not overwritten is moved-from exactly once (move_backward) or unchanged (copy_backward)"); } } \
+  VF_REACH(); }
+/* ---- inplace_merge [alg.merge]: closed form as B_INPLACE_MERGE, on Hm values (key = v >> 4, tag = v & 15) */
+#define B_HM_INPLACE_MERGE(L, CLO, CHI) { LEN(n, L); VF_INPUT(unsigned char, m); VF_ASSUME(m <= n); SEL(c, CLO, CHI); VF_ASSUME(c != 3); HTIN(a, L, 0); \
+  SPLITR(c, CLO, CHI) if (c != 3) { EMK(HM, a, n, L); \
+    FORK(k, (L) - 1, n - 1) if (k + 1 != m) VF_ASSUME(!ltk(c, a_in[k + 1].v, a_in[k].v)); \
+    hm_inplace_merge(a, a + m, a + n, c); \
+    FORK(i, L, m) { int pos = i; FORK(j, L, n) if (j >= m) pos += ltk(c, a_in[j].v, a_in[i].v); VF_ASSERT(a[pos].v == a_in[i].v, "inplace_merge: an element of the first half lands, value intact, behind exactly the second-half elements less than it"); } \
+    FORK(j, L, n) if (j >= m) { int pos = j - m; FORK(i, L, m) pos += !ltk(c, a_in[j].v, a_in[i].v); VF_ASSERT(a[pos].v == a_in[j].v, "inplace_merge: an element of the second half lands, value intact, behind exactly the first-half elements not greater than it"); } \
+    TAIL(a, n, L, HEQ); } \
+  VF_REACH(); }
+/* ---- sorting [alg.sort]: every output element is an input element with its value intact, no duplicates, sorted (and stable) */
+#define HM_SORTED_PERM(L, n, c, STABLE) \
+    FORK(k, L, n) VF_ASSERT(TAG(a[k].v) < n && a[k].v == a_in[TAG(a[k].v)].v, "sort: every output element is an input element with its value intact (none is left moved-from)"); \
+    FORK(j, L, n) FORK(k, L, n) if (j < k) VF_ASSERT(TAG(a[j].v) != TAG(a[k].v), "sort: no input element is duplicated (permutation)");
+#define B_HM_SORT(L, CALL, NMIN, STABLE) { LEN(n, L); VF_ASSUME(n >= (NMIN)); SELC(c); HTIN(a, L, 0); \
+  SPLIT(c, 4) if (c != 3) SPLIT(n, L) { MK(HM, a, n, L); \
+    CALL(a, a + n, c); \
+    HM_SORTED_PERM(L, n, c, STABLE) \
+    FORK(k, (L) - 1, n - 1) { VF_ASSERT(!ltk(c, a[k + 1].v, a[k].v), "sort: the result is sorted with respect to comp (comp(x, y) != 0)"); \
+      if (STABLE) VF_ASSERT(ltk(c, a[k].v, a[k + 1].v) || TAG(a[k].v) < TAG(a[k + 1].v), "stable sort: equivalent elements keep their original order"); } } \
+  VF_REACH(); }
+#define B_HM_PARTIAL_SORT(L) { LEN(n, L); VF_INPUT(unsigned char, m); VF_ASSUME(m <= n); SELC(c); VF_INPUT_BOOL(nth); HTIN(a, L, 0); \
+  SPLIT(c, 4) if (c != 3) SPLIT(n, L) { MK(HM, a, n, L); \
+    if (nth) hm_nth_element(a, a + m, a + n, c); else hm_partial_sort(a, a + m, a + n, c); \
+    HM_SORTED_PERM(L, n, c, 0) \
+    if (nth) { FORK(i, L, n) FORK(j, L, n) if (i <= m && j >= m && i < j) VF_ASSERT(!ltk(c, a[j].v, a[i].v), "nth_element: for i in [first, nth], j in [nth, last): !comp(a[j], a[i])"); } \
+    else { FORK(k, (L) - 1, m - 1) VF_ASSERT(!ltk(c, a[k + 1].v, a[k].v), "partial_sort: [first, middle) is sorted"); \
+      FORK(i, L, m) FORK(j, L, n) if (j >= m) VF_ASSERT(!ltk(c, a[j].v, a[i].v), "partial_sort: no element of [middle, last) is less than an element of [first, middle)"); } } \
+  VF_REACH(); }
+/* ---- erase / erase_if on static_vector<Hc, 4> [vector.erasure]: w == 0 erase(c, value), w - 1 the predicate of erase_if */
+#define B_HM_ERASE() { VF_INPUT(HV4, v); SEL(w, 0, 3); VF_INPUT(HC, val); VF_ASSUME(HV4SZ(v) <= 4); HV4 o = v; int n = HV4SZ(v); for (int k = 0; k < 4; ++k) VF_ASSUME(HV4EL(o, k) != -1); \
+  SPLIT(w, 3) SPLIT(n, 4) { int cnt = 0; \
+    ul r = w == 0 ? hm_erase(&v, &val) : hm_erase_if(&v, w - 1); \
+    FORK(k, 4, n) if (!(w == 0 ? HV4EL(o, k) == val.v : ipredc(w - 1, HV4EL(o, k)))) { VF_ASSERT(HV4EL(v, cnt) == HV4EL(o, k), "erase / erase_if: the elements that are not erased keep their values and their relative order"); ++cnt; } \
+    VF_ASSERT(HV4SZ(v) == cnt && r == (ul)(n - cnt), "erase / erase_if: size() shrinks by the number of erased elements, which is returned"); } \
+  VF_REACH(); }
+
+/* ---- (2) int ranges, unary predicates returning int: the non-modifying queries */
+#define B_IP_QUERY(L) { LEN(n, L); SEL(p, 0, 2); IN(int, a, L); \
+  SPLIT(p, 2) SPLIT(n, L) { MK(int, a, n, L); int cnt = 0, ft = n, ff = n; _Bool part = 1; \
+    for (int k = (L) - 1; k >= 0; --k) if (k < n) { if (ipred(p, a_in[k])) { ++cnt; ft = k; } else ff = k; } \
+    FORK(k, L, n) if (k > ff && ipred(p, a_in[k])) part = 0; \
+    VF_ASSERT(ip_count_if(a, a + n, p) == cnt, "count_if returns the NUMBER of elements with pred(x) != 0"); \
+    VF_ASSERT(ip_find_if(a, a + n, p) == a + ft, "find_if returns the first element with pred(x) != 0, else last"); \
+    VF_ASSERT(ip_find_if_not(a, a + n, p) == a + ff, "find_if_not returns the first element with pred(x) == 0, else last"); \
+    VF_ASSERT(ip_all_of(a, a + n, p) == (ff == n) && ip_any_of(a, a + n, p) == (ft != n) && ip_none_of(a, a + n, p) == (ft == n), "all_of / any_of / none_of"); \
+    VF_ASSERT(ip_is_partitioned(a, a + n, p) == part, "is_partitioned: true iff every element with pred(x) != 0 precedes every element with pred(x) == 0"); \
+    if (part) VF_ASSERT(ip_partition_point(a, a + n, p) == a + ff, "partition_point returns the first element with pred(x) == 0, else last"); \
+    FORK(k, L, n) VF_ASSERT(a[k] == a_in[k], "non-modifying algorithms leave the range unchanged"); } \
+  VF_REACH(); }
+/* copy_if, remove_copy_if, partition_copy, replace_if */
+#define B_IP_COPY(L) { LEN(n, L); SEL(p, 0, 2); VF_INPUT(int, nv); IN(int, a, L); \
+  SPLIT(p, 2) SPLIT(n, L) { MK(int, a, n, L); int cnt = 0, wt = 0, wf = 0; FORK(k, L, n) cnt += ipred(p, a_in[k]); \
+    SPLIT(cnt, L) if (cnt <= n) { OUT(int, dt, cnt); OUT(int, df, n - cnt); OUT(int, ct, cnt); OUT(int, cf, n - cnt); int *rt, *rf; \
+      ip_partition_copy(a, a + n, dt, df, &rt, &rf, p); \
+      VF_ASSERT(rt == dt + cnt && rf == df + (n - cnt), "partition_copy returns the ends of the two output ranges"); \
+      VF_ASSERT(ip_copy_if(a, a + n, ct, p) == ct + cnt, "copy_if returns the end of the output range"); \
+      VF_ASSERT(ip_remove_copy_if(a, a + n, cf, p) == cf + (n - cnt), "remove_copy_if returns the end of the output range"); \
+      FORK(k, L, n) { VF_ASSERT(a[k] == a_in[k], "the copying algorithms leave the source unchanged"); \
+        if (ipred(p, a_in[k])) { VF_ASSERT(dt[wt] == a_in[k] && ct[wt] == a_in[k], "partition_copy / copy_if: elements with pred(x) != 0 to out_true / result, in order"); ++wt; } \
+        else { VF_ASSERT(df[wf] == a_in[k] && cf[wf] == a_in[k], "partition_copy / remove_copy_if: elements with pred(x) == 0 to out_false / result, in order"); ++wf; } } \
+      ip_replace_if(a, a + n, p, &nv); \
+      FORK(k, L, n) VF_ASSERT(a[k] == (ipred(p, a_in[k]) ? nv : a_in[k]), "replace_if assigns new_value to exactly the elements with pred(x) != 0"); } } \
+  VF_REACH(); }
+/* remove_if, partition on int (the Hm groups cover them too; here all three predicates over plain ints) */
+#define B_IP_REMOVE_PARTITION(L) { LEN(n, L); SEL(p, 0, 2); VF_INPUT(int, g); IN(int, a, L); \
+  SPLIT(p, 2) SPLIT(n, L) { MK(int, a, n, L); MK(int, b, n, L); int cnt = 0, w = 0, gb = 0, ga = 0; \
+    FORK(k, L, n) { cnt += ipred(p, a_in[k]); gb += a_in[k] == g; } \
+    int *r = ip_remove_if(a, a + n, p); \
+    FORK(k, L, n) if (!ipred(p, a_in[k])) { VF_ASSERT(a[w] == a_in[k], "remove_if keeps exactly the elements with pred(x) == 0, in order"); ++w; } \
+    VF_ASSERT(r == a + w, "remove_if returns the end of the resulting range"); \
+    int *q = ip_partition(b, b + n, p); \
+    VF_ASSERT(q == b + cnt, "partition returns first + #{elements with pred(x) != 0}"); \
+    FORK(k, L, n) { ga += b[k] == g; VF_ASSERT(ipred(p, b[k]) == (k < cnt), "partition: pred(x) != 0 exactly on [first, ret)"); } \
+    VF_ASSERT(ga == gb, "partition permutes: every value occurs as often as before"); } \
+  VF_REACH(); }
+/* binary predicates returning int on one / two aligned ranges: adjacent_find, equal, mismatch, unique, unique_copy */
+#define B_IP_PAIRS(L) { LEN(n, L); LEN(m, L); SEL(p, 0, 1); IN(int, a, L); IN(int, c, L); \
+  SPLIT(p, 1) SPLIT(n, L) SPLIT(m, L) { MK(int, a, n, L); MK(int, c, m, L); int adj = n, mm = 0, e[(L) + 1], w = 0; int *r1, *r2; \
+    for (int k = (L) - 2; k >= 0; --k) if (k + 1 < n && peq(p, a_in[k], a_in[k + 1])) adj = k; \
+    { _Bool go = 1; FORK(k, L, n) if (go && k < m && peq(p, a_in[k], c_in[k])) mm = k + 1; else go = 0; } \
+    FORK(k, L, n) if (k == 0 || !peq(p, a_in[k - 1], a_in[k])) { e[w] = a_in[k]; ++w; } \
+    VF_ASSERT(ip_adjacent_find(a, a + n, p) == a + adj, "adjacent_find(pred) returns the first i with pred(*i, *(i + 1)) != 0, else last"); \
+    VF_ASSERT(ip_equal4(a, a + n, c, c + m, p) == (n == m && mm == n), "equal(f1, l1, f2, l2, pred): same length and pred != 0 for every pair"); \
+    ip_mismatch4(a, a + n, c, c + m, p, &r1, &r2); \
+    VF_ASSERT(r1 == a + mm && r2 == c + mm, "mismatch(f1, l1, f2, l2, pred) returns the first pair with pred == 0 (or the end of the shorter range)"); \
+    if (m >= n) { VF_ASSERT(ip_equal3(a, a + n, c, p) == (mm == n), "equal(f1, l1, f2, pred): pred != 0 for every pair"); \
+      ip_mismatch3(a, a + n, c, p, &r1, &r2); VF_ASSERT(r1 == a + mm && r2 == c + mm, "mismatch(f1, l1, f2, pred) returns the first pair with pred == 0"); } \
+    SPLIT(w, L) { OUT(int, d, w); VF_ASSERT(ip_unique_copy(a, a + n, d, p) == d + w, "unique_copy(pred) returns the end of the output range"); \
+      FORK(k, L, w) VF_ASSERT(d[k] == e[k], "unique_copy(pred) copies the first element of every group of consecutive equivalent elements"); \
+      FORK(k, L, n) VF_ASSERT(a[k] == a_in[k], "the non-modifying / copying algorithms leave the source unchanged"); \
+      VF_ASSERT(ip_unique(a, a + n, p) == a + w, "unique(pred) returns the end of the resulting range"); \
+      FORK(k, L, w) VF_ASSERT(a[k] == e[k], "unique(pred) keeps the first element of every group of consecutive equivalent elements"); } } \
+  VF_REACH(); }
+/* comparators returning int on one range: is_sorted, is_sorted_until, min/max/minmax_element; on two: lexicographical_compare */
+#define B_IP_ORDER(L) { LEN(n, L); LEN(m, L); SEL(c, 0, 2); IN(int, a, L); IN(int, b, L); \
+  SPLIT(c, 2) SPLIT(n, L) SPLIT(m, L) { MK(int, a, n, L); MK(int, b, m, L); int su = n, mn = 0, mx = 0, mxl = 0; int *lo, *hi; _Bool lex = 0, dec = 0; \
+    for (int k = (L) - 1; k >= 1; --k) if (k < n && lt(c, a_in[k], a_in[k - 1])) su = k; \
+    FORK(k, L, n) { if (lt(c, a_in[k], a_in[mn])) mn = k; if (lt(c, a_in[mx], a_in[k])) mx = k; if (!lt(c, a_in[k], a_in[mxl])) mxl = k; } \
+    FORK(k, L, n) if (!dec) { if (k >= m) dec = 1; else if (lt(c, a_in[k], b_in[k])) { lex = 1; dec = 1; } else if (lt(c, b_in[k], a_in[k])) dec = 1; } if (!dec && n < m) lex = 1; \
+    VF_ASSERT(ip_is_sorted_until(a, a + n, c) == a + su, "is_sorted_until(comp) returns the first i with comp(*i, *(i - 1)) != 0, else last"); \
+    VF_ASSERT(ip_is_sorted(a, a + n, c) == (su == n), "is_sorted(comp)"); \
+    VF_ASSERT(ip_min_element(a, a + n, c) == a + mn, "min_element(comp) returns the first smallest element (last for an empty range)"); \
+    VF_ASSERT(ip_max_element(a, a + n, c) == a + mx, "max_element(comp) returns the first largest element (last for an empty range)"); \
+    ip_minmax_element(a, a + n, c, &lo, &hi); \
+    VF_ASSERT(lo == a + mn && hi == a + mxl, "minmax_element(comp) returns the first smallest and the LAST largest element"); \
+    VF_ASSERT(ip_lexicographical_compare(a, a + n, b, b + m, c) == lex, "lexicographical_compare(comp): decided by the first pair with comp(x, y) != 0 or comp(y, x) != 0, else by the lengths"); \
+    FORK(k, L, n) VF_ASSERT(a[k] == a_in[k], "non-modifying algorithms leave the range unchanged"); } \
+  VF_REACH(); }
+/* binary searches on a range sorted with respect to comp; min / max / minmax / clamp with comp */
+#define B_IP_BOUNDS(L) { LEN(n, L); SEL(c, 0, 2); VF_INPUT(int, v); VF_INPUT(int, x); VF_INPUT(int, y); IN(int, a, L); \
+  SPLIT(c, 2) SPLIT(n, L) { MK(int, a, n, L); ASSUME_SORTED(c, a_in, n, L, ); int lb = n, ub = n; int *lo, *hi; \
+    for (int k = (L) - 1; k >= 0; --k) if (k < n) { if (!lt(c, a_in[k], v)) lb = k; if (lt(c, v, a_in[k])) ub = k; } \
+    VF_ASSERT(ip_lower_bound(a, a + n, &v, c) == a + lb, "lower_bound(comp) returns the first element with comp(x, value) == 0, else last"); \
+    VF_ASSERT(ip_upper_bound(a, a + n, &v, c) == a + ub, "upper_bound(comp) returns the first element with comp(value, x) != 0, else last"); \
+    ip_equal_range(a, a + n, &v, c, &lo, &hi); VF_ASSERT(lo == a + lb && hi == a + ub, "equal_range(comp) returns {lower_bound, upper_bound}"); \
+    VF_ASSERT(ip_binary_search(a, a + n, &v, c) == (lb < ub), "binary_search(comp): true iff an element equivalent to value exists"); \
+    VF_ASSERT(ip_min(&x, &y, c) == (lt(c, y, x) ? &y : &x), "min(a, b, comp) returns b if comp(b, a) != 0, else a"); \
+    VF_ASSERT(ip_max(&x, &y, c) == (lt(c, x, y) ? &y : &x), "max(a, b, comp) returns b if comp(a, b) != 0, else a"); \
+    ip_minmax(&x, &y, c, &lo, &hi); VF_ASSERT(lo == (lt(c, y, x) ? &y : &x) && hi == (lt(c, y, x) ? &x : &y), "minmax(a, b, comp) returns {b, a} if comp(b, a) != 0, else {a, b}"); \
+    if (!lt(c, y, x)) VF_ASSERT(ip_clamp(&v, &x, &y, c) == (lt(c, v, x) ? &x : (lt(c, y, v) ? &y : &v)), "clamp(v, lo, hi, comp) returns lo if comp(v, lo) != 0, hi if comp(hi, v) != 0, else v"); \
+    FORK(k, L, n) VF_ASSERT(a[k] == a_in[k], "non-modifying algorithms leave the range unchanged"); } \
+  VF_REACH(); }
+
+/* ---- groups: hm_* / ip_* quick (len<=4 unless stated), *_t the tier=thorough twins */
+/*@GROUP name=hm_remove props=C06,C01,C02 kind=B bound=len<=4 unwind=7 solver=kissat objbits=12 timeout=600@*/
+void h_hm_remove(void) B_HM_REMOVE(4)
+/*@GROUP name=hm_remove_t props=C06,C01,C02 kind=B bound=len<=6 unwind=9 solver=kissat tier=thorough objbits=13 timeout=3000@*/
+void h_hm_remove_t(void) B_HM_REMOVE(6)
+/*@GROUP name=hm_unique props=C06,C02 kind=B bound=len<=4 unwind=7 solver=kissat objbits=12 timeout=600@*/
+void h_hm_unique(void) B_HM_UNIQUE(4)
+/*@GROUP name=hm_unique_t props=C06,C02 kind=B bound=len<=6 unwind=9 solver=kissat tier=thorough objbits=13 timeout=3000@*/
+void h_hm_unique_t(void) B_HM_UNIQUE(6)
+/*@GROUP name=hm_rotate props=C06,C02 kind=B bound=len<=4 unwind=7 solver=kissat objbits=12 timeout=600@*/
+void h_hm_rotate(void) B_HM_ROTATE(4)
+/*@GROUP name=hm_rotate_t props=C06,C02 kind=B bound=len<=6 unwind=9 solver=kissat tier=thorough objbits=13 timeout=3000@*/
+void h_hm_rotate_t(void) B_HM_ROTATE(6)
+/*@GROUP name=hm_shift props=C06,C02 kind=B bound=len<=4,n_in_[0,len+1] unwind=7 solver=kissat objbits=12 timeout=600@*/
+void h_hm_shift(void) B_HM_SHIFT(4)
+/*@GROUP name=hm_shift_t props=C06,C02 kind=B bound=len<=6,n_in_[0,len+1] unwind=9 solver=kissat tier=thorough objbits=13 timeout=3000@*/
+void h_hm_shift_t(void) B_HM_SHIFT(6)
+/*@GROUP name=hm_partition props=C06,C02 kind=B bound=len<=4 unwind=7 solver=kissat objbits=12 timeout=600@*/
+void h_hm_partition(void) B_HM_PARTITION(4)
+/*@GROUP name=hm_partition_t props=C06,C02 kind=B bound=len<=6 unwind=9 solver=kissat tier=thorough objbits=13 timeout=3000@*/
+void h_hm_partition_t(void) B_HM_PARTITION(6)
+/*@GROUP name=hm_stable_partition props=C06,C02 kind=B bound=len<=3,predicates_2_and_3 unwind=7 solver=kissat objbits=12 timeout=600@*/
+void h_hm_stable_partition(void) B_HM_STABLE_PARTITION(3, 2, VF_KNOWN(C06_stable_partition_adds_predicate, p <= 2 && cnt > 0))
+/*@GROUP name=hm_stable_partition_t props=C06,C02 kind=B bound=len<=5 unwind=8 solver=kissat tier=thorough objbits=13 timeout=3000@*/
+void h_hm_stable_partition_t(void) B_HM_STABLE_PARTITION(5, 0, VF_KNOWN(C06_stable_partition_adds_predicate, p <= 2 && cnt > 0))
+/*@GROUP name=hm_swaps props=C06,C02 kind=B bound=len<=4 unwind=7 solver=kissat objbits=12 timeout=600@*/
+void h_hm_swaps(void) B_HM_SWAPS(4)
+/*@GROUP name=hm_swaps_t props=C06,C02 kind=B bound=len<=6 unwind=9 solver=kissat tier=thorough objbits=13 timeout=3000@*/
+void h_hm_swaps_t(void) B_HM_SWAPS(6)
+/*@GROUP name=hm_move props=C06,C02 kind=B bound=len<=4 unwind=7 solver=kissat objbits=12 timeout=600@*/
+void h_hm_move(void) B_HM_MOVE(4)
+/*@GROUP name=hm_move_t props=C06,C02 kind=B bound=len<=6 unwind=9 solver=kissat tier=thorough objbits=13 timeout=3000@*/
+void h_hm_move_t(void) B_HM_MOVE(6)
+/*@GROUP name=hm_inplace_merge props=C06,C02 kind=B bound=len<=3,comparators_2_and_4 unwind=9 solver=kissat objbits=12 timeout=600@*/
+void h_hm_inplace_merge(void) B_HM_INPLACE_MERGE(3, 2, 4)
+/*@GROUP name=hm_inplace_merge_t props=C06,C02 kind=B bound=len<=5 unwind=13 solver=kissat tier=thorough objbits=13 timeout=3000@*/
+void h_hm_inplace_merge_t(void) B_HM_INPLACE_MERGE(5, 0, 4)
+/*@GROUP name=hm_sort props=C06,C02 kind=B bound=len<=3 unwind=12 solver=kissat objbits=12 timeout=600@*/
+void h_hm_sort(void) B_HM_SORT(3, hm_sort, 0, 0)
+/*@GROUP name=hm_sort_t props=C06,C02 kind=B bound=len<=4 unwind=19 solver=kissat tier=thorough objbits=13 timeout=3000@*/
+void h_hm_sort_t(void) B_HM_SORT(4, hm_sort, 0, 0)
+/*@GROUP name=hm_gnome_sort props=C06,C02 kind=B bound=len<=3 unwind=12 solver=kissat objbits=12 timeout=600@*/
+void h_hm_gnome_sort(void) B_HM_SORT(3, hm_gnome_sort, 0, 0)
+/*@GROUP name=hm_gnome_sort_t props=C06,C02 kind=B bound=len<=4 unwind=19 solver=kissat tier=thorough objbits=13 timeout=3000@*/
+void h_hm_gnome_sort_t(void) B_HM_SORT(4, hm_gnome_sort, 0, 0)
+/*@GROUP name=hm_bubble_sort props=C06,C02 kind=B bound=len<=4 unwind=7 solver=kissat objbits=12 timeout=600@*/
+void h_hm_bubble_sort(void) B_HM_SORT(4, hm_bubble_sort, 0, 0)
+/*@GROUP name=hm_bubble_sort_t props=C06,C02 kind=B bound=len<=6 unwind=9 solver=kissat tier=thorough objbits=13 timeout=3000@*/
+void h_hm_bubble_sort_t(void) B_HM_SORT(6, hm_bubble_sort, 0, 0)
+/*@GROUP name=hm_exchange_sort props=C06,C02 kind=B bound=len<=4 unwind=7 solver=kissat objbits=12 timeout=600@*/
+void h_hm_exchange_sort(void) B_HM_SORT(4, hm_exchange_sort, 1, 0)
+/*@GROUP name=hm_exchange_sort_t props=C06,C02 kind=B bound=len<=6 unwind=9 solver=kissat tier=thorough objbits=13 timeout=3000@*/
+void h_hm_exchange_sort_t(void) B_HM_SORT(6, hm_exchange_sort, 1, 0)
+/*@GROUP name=hm_stable_sort props=C06,C02 kind=B bound=len<=4 unwind=7 solver=kissat objbits=12 timeout=600@*/
+void h_hm_stable_sort(void) B_HM_SORT(4, hm_stable_sort, 0, 1)
+/*@GROUP name=hm_stable_sort_t props=C06,C02 kind=B bound=len<=6 unwind=9 solver=kissat tier=thorough objbits=13 timeout=3000@*/
+void h_hm_stable_sort_t(void) B_HM_SORT(6, hm_stable_sort, 0, 1)
+/*@GROUP name=hm_insertion_sort props=C06,C02 kind=B bound=len<=4 unwind=7 solver=kissat objbits=12 timeout=600@*/
+void h_hm_insertion_sort(void) B_HM_SORT(4, hm_insertion_sort, 0, 1)
+/*@GROUP name=hm_insertion_sort_t props=C06,C02 kind=B bound=len<=6 unwind=9 solver=kissat tier=thorough objbits=13 timeout=3000@*/
+void h_hm_insertion_sort_t(void) B_HM_SORT(6, hm_insertion_sort, 0, 1)
+/*@GROUP name=hm_merge_sort props=C06,C02 kind=B bound=len<=3 unwind=6 solver=kissat objbits=12 timeout=600@*/
+void h_hm_merge_sort(void) B_HM_SORT(3, hm_merge_sort, 0, 1)
+/*@GROUP name=hm_merge_sort_t props=C06,C02 kind=B bound=len<=5 unwind=8 solver=kissat tier=thorough objbits=13 timeout=3000@*/
+void h_hm_merge_sort_t(void) B_HM_SORT(5, hm_merge_sort, 0, 1)
+/*@GROUP name=hm_partial_sort props=C06,C02 kind=B bound=len<=3 unwind=12 solver=kissat objbits=12 timeout=600@*/
+void h_hm_partial_sort(void) B_HM_PARTIAL_SORT(3)
+/*@GROUP name=hm_partial_sort_t props=C06,C02 kind=B bound=len<=4 unwind=19 solver=kissat tier=thorough objbits=13 timeout=3000@*/
+void h_hm_partial_sort_t(void) B_HM_PARTIAL_SORT(4)
+/*@GROUP name=hm_erase props=C06,C01,C02 kind=K unwind=7 solver=kissat objbits=12 timeout=600@*/
+void h_hm_erase(void) B_HM_ERASE()
+/*@GROUP name=ip_query props=C06,C02 kind=B bound=len<=4 unwind=7 solver=kissat objbits=12 timeout=600@*/
+void h_ip_query(void) B_IP_QUERY(4)
+/*@GROUP name=ip_query_t props=C06,C02 kind=B bound=len<=6 unwind=9 solver=kissat tier=thorough objbits=13 timeout=3000@*/
+void h_ip_query_t(void) B_IP_QUERY(6)
+/*@GROUP name=ip_copy props=C06,C02 kind=B bound=len<=4 unwind=7 solver=kissat objbits=12 timeout=600@*/
+void h_ip_copy(void) B_IP_COPY(4)
+/*@GROUP name=ip_copy_t props=C06,C02 kind=B bound=len<=6 unwind=9 solver=kissat tier=thorough objbits=13 timeout=3000@*/
+void h_ip_copy_t(void) B_IP_COPY(6)
+/*@GROUP name=ip_remove_partition props=C06,C02 kind=B bound=len<=4 unwind=7 solver=kissat objbits=12 timeout=600@*/
+void h_ip_remove_partition(void) B_IP_REMOVE_PARTITION(4)
+/*@GROUP name=ip_remove_partition_t props=C06,C02 kind=B bound=len<=6 unwind=9 solver=kissat tier=thorough objbits=13 timeout=3000@*/
+void h_ip_remove_partition_t(void) B_IP_REMOVE_PARTITION(6)
+/*@GROUP name=ip_pairs props=C06,C02 kind=B bound=len<=4 unwind=7 solver=kissat objbits=12 timeout=600@*/
+void h_ip_pairs(void) B_IP_PAIRS(4)
+/*@GROUP name=ip_pairs_t props=C06,C02 kind=B bound=len<=6 unwind=9 solver=kissat tier=thorough objbits=14 timeout=3000@*/
+void h_ip_pairs_t(void) B_IP_PAIRS(6)
+/*@GROUP name=ip_order props=C06,C02 kind=B bound=len<=4 unwind=7 solver=kissat objbits=12 timeout=600@*/
+void h_ip_order(void) B_IP_ORDER(4)
+/*@GROUP name=ip_order_t props=C06,C02 kind=B bound=len<=6 unwind=9 solver=kissat tier=thorough objbits=14 timeout=3000@*/
+void h_ip_order_t(void) B_IP_ORDER(6)
+/*@GROUP name=ip_bounds props=C06,C02 kind=B bound=len<=4 unwind=7 solver=kissat objbits=12 timeout=600@*/
+void h_ip_bounds(void) B_IP_BOUNDS(4)
+/*@GROUP name=ip_bounds_t props=C06,C02 kind=B bound=len<=6 unwind=9 solver=kissat tier=thorough objbits=13 timeout=3000@*/
+void h_ip_bounds_t(void) B_IP_BOUNDS(6)
+/*@GROUP name=ip_search props=C06,C02 kind=B bound=len<=4,needle<=4 unwind=7 solver=kissat objbits=12 timeout=600@*/
+void h_ip_search(void) B_SEARCH(4, ip_search, 0, 1)
+/*@GROUP name=ip_find_end props=C06,C02 kind=B bound=len<=4,needle<=4 unwind=7 solver=kissat objbits=12 timeout=600@*/
+void h_ip_find_end(void) B_FIND_END_C(4, ip_find_end, 0, 1)
+/*@GROUP name=ip_search_n props=C06,C02 kind=B bound=len<=4,count_in_[-1,len+1] unwind=7 solver=kissat objbits=12 timeout=600@*/
+void h_ip_search_n(void) B_SEARCH_N_C(4, ip_search_n, 0, 1, (void)0)
+/*@GROUP name=ip_find_first_of props=C06,C02 kind=B bound=len<=4,needle<=4 unwind=7 solver=kissat objbits=12 timeout=600@*/
+void h_ip_find_first_of(void) B_FIND_FIRST_OF_C(4, ip_find_first_of, 0, 1)
+/*@GROUP name=ip_includes props=C06,C02 kind=B bound=len1<=4,len2<=4 unwind=11 solver=kissat objbits=12 timeout=600@*/
+void h_ip_includes(void) B_INCLUDES_C(4, ip_includes, 0, 2)
+/*@GROUP name=ip_sort props=C06,C02 kind=B bound=len<=3 unwind=12 solver=kissat objbits=12 timeout=600@*/
+void h_ip_sort(void) B_SORT(3, ip_sort, 0, 2, 0)
+/*@GROUP name=ip_merge props=C06,C02 kind=B bound=len1<=3,len2<=3 unwind=9 solver=kissat objbits=12 timeout=600@*/
+void h_ip_merge(void) B_MERGE(3, ip_merge(a, a + na, b, b + nb, d, c), 0, 2)
+/*@GROUP name=ip_set_union props=C06,C02 kind=B bound=len1<=2,len2<=2 unwind=7 solver=kissat objbits=12 timeout=600@*/
+void h_ip_set_union(void) B_SETOP(2, OP_UNION, ip_set_op(0, a, a + na, b, b + nb, d, c), "set_union", 0, 2)
+/*@GROUP name=ip_set_intersection props=C06,C02 kind=B bound=len1<=2,len2<=2 unwind=7 solver=kissat objbits=12 timeout=600@*/
+void h_ip_set_intersection(void) B_SETOP(2, OP_INTER, ip_set_op(1, a, a + na, b, b + nb, d, c), "set_intersection", 0, 2)
+/*@GROUP name=ip_set_difference props=C06,C02 kind=B bound=len1<=2,len2<=2 unwind=7 solver=kissat objbits=12 timeout=600@*/
+void h_ip_set_difference(void) B_SETOP(2, OP_DIFF, ip_set_op(2, a, a + na, b, b + nb, d, c), "set_difference", 0, 2)
+/*@GROUP name=ip_set_symmetric_difference props=C06,C02 kind=B bound=len1<=2,len2<=2 unwind=7 solver=kissat objbits=12 timeout=600@*/
+void h_ip_set_symmetric_difference(void) B_SETOP(2, OP_SYM, ip_set_op(3, a, a + na, b, b + nb, d, c), "set_symmetric_difference", 0, 2)
+/*@GROUP name=ip_set_ops_t props=C06,C02 kind=B bound=len1<=4,len2<=4 unwind=11 solver=kissat tier=thorough objbits=13 timeout=3000@*/
+void h_ip_set_ops_t(void) { VF_INPUT(unsigned char, which); VF_ASSUME(which <= 3);
+  if (which == 0) B_SETOP(4, OP_UNION, ip_set_op(0, a, a + na, b, b + nb, d, c), "set_union", 0, 2)
+  else if (which == 1) B_SETOP(4, OP_INTER, ip_set_op(1, a, a + na, b, b + nb, d, c), "set_intersection", 0, 2)
+  else if (which == 2) B_SETOP(4, OP_DIFF, ip_set_op(2, a, a + na, b, b + nb, d, c), "set_difference", 0, 2)
+  else B_SETOP(4, OP_SYM, ip_set_op(3, a, a + na, b, b + nb, d, c), "set_symmetric_difference", 0, 2) }
